@@ -279,7 +279,8 @@ func c17GenData(rng *vk.Rand) *c17Data {
 	col := func(sh uint64) uint64 { return sh*pilosa.ShardWidth + uint64(rng.Intn(40)) }
 	// set fields: rows 0..4, each present in a random non-empty subset of shards
 	// f uses rows 1..5: with a row 0 present, MaxRow(<filter>, field=f) on a shard where the filter
-	// meets no row never returns (fragment.maxRow counts a uint64 down past 0) — another property's defect
+	// met no row used to spin forever (fragment.maxRow counted a uint64 down past 0; C16's subject,
+	// repaired by 04fd772) — rows stay >= 1 so that this check does not depend on that repair
 	for mi, m := range []map[uint64][]uint64{d.F, d.G} {
 		for row := uint64(1 - mi); row < uint64(6-mi); row++ {
 			if rng.Chance(1, 6) {
@@ -659,7 +660,7 @@ func TestVerifC17Arrival(t *testing.T) {
 	r.Expect("all-permutations:single-node", "nodes:1", "nodes:2", "nodes:3", "coordinator:non-first", "replicas:2",
 		"tie:Min:extreme-tied-across-shards", "tie:Max:extreme-tied-across-shards", "tie:MinRowFiltered:extreme-row-in-several-shards")
 
-	n := r.N(24, 2400)
+	n := r.N(16, 900)
 	r.Cases("data", n, func(ci int, id string, rng *vk.Rand) {
 		d := c17GenData(rng)
 		if r.WantSample() {
